@@ -1,5 +1,6 @@
 import Dashu.Proofs.Int.Div
 import Dashu.Proofs.Int.NumModular
+import Dashu.Proofs.Int.DivMemory
 import Dashu.Props.GenInt
 /-
   C02 — Integer division obeys the division identity with documented conventions; division
@@ -20,7 +21,8 @@ import Dashu.Props.GenInt
         mixed form equals `Int.tdiv/tmod` resp. `Int.ediv/emod`; zero divisor = DivideByZero;
   * §5 ConstDivisor = plain division;
   * §6 the num-modular dividers (Möller–Granlund 2-by-1, 3-by-2, reciprocals) mirrored and proved
-        equal to floor division: the division model's contract parameters are discharged.
+        equal to floor division: the division model's contract parameters are discharged;
+  * §7 `div::memory_requirement_exact` suffices for every scratch allocation of a division.
 -/
 namespace Dashu.Props.C02
 open Dashu Dashu.Model Dashu.Model.Div Dashu.Gen Dashu.GluePrelude
@@ -668,6 +670,17 @@ theorem nm_contracts_discharged (W : Nat) (hW : 1 ≤ W) :
   · rw [NumModular.div2by1_spec W d a hW h1 h2 h3, div2by1_ok W d a h3]
   · rw [NumModular.div3by2_spec W d aLo aHi hW h1 h2 h3 h4, div3by2_ok W d aLo aHi h4]
   · rw [NumModular.div4by2_spec W d aLo aHi hW h1 h2 h3 h4, div4by2_ok W d aLo aHi h4]
+
+-- ================================================================== §7 scratch memory
+
+/-- the `MemoryAllocation` sized by `div::memory_requirement_exact(lhs_len, rhs_len)` covers every
+    scratch allocation made by `div::div_rem_in_place` for ALL operand lengths (schoolbook takes
+    none; Burnikel–Ziegler only those of `mul::add_signed_mul`, each with a shorter operand of at
+    most `min(rhs_len / 2, lhs_len − rhs_len)` words): memory.rs's
+    "internal error: not enough memory allocated" is unreachable from division -/
+theorem div_scratch_memory_suffices (lhsLen rhsLen : Nat) (h : rhsLen ≤ lhsLen) (h2 : 2 ≤ rhsLen) :
+    memDivide lhsLen rhsLen = .ok () :=
+  memDivide_ok lhsLen rhsLen h h2
 
 -- ================================================================== non-vacuity
 
